@@ -243,6 +243,32 @@ pub fn check_schedule(run: &mut Run, s: &Schedule, mode: &str) {
     }
 }
 
+/// lines that are NOT valid UTF-8 (oracle only, no model case: the reader model delivers bytes, the implementation a
+/// lossily converted `String`): every complete line is still delivered exactly once, in order — as its lossy conversion —
+/// and nothing else is, whatever the chunking; a line with an undecodable byte must not disturb the lines around it
+fn check_schedule_lossy(run: &mut Run, s: &Schedule, mode: &str) {
+    let appended: Vec<u8> = s.chunks.concat();
+    let mut whole = s.initial.clone();
+    whole.extend_from_slice(&appended);
+    let start = if s.head { 0 } else { s.initial.len() };
+    let (expected, _tail) = complete_lines(&whole[start..]);
+    let expected: Vec<Vec<u8>> = expected.iter().map(|l| String::from_utf8_lossy(l).into_owned().into_bytes()).collect();
+    let desc = format!("{} cap={} initial={} chunks=({}) [{}; lines that are not valid UTF-8]", if s.head { "head" } else { "tail" }, s.cap, hex(&s.initial), s.chunks.iter().map(|c| hex(c)).collect::<Vec<_>>().join(" "), mode);
+    run.oracle_checks += 1;
+    run.count("invalid-utf8-content");
+    match run_real(s) {
+        Err(e) => run.fail(desc, "follow-panic", e),
+        Ok(obs) => {
+            if obs.delivered != expected {
+                let d = &obs.delivered;
+                let common = d.iter().zip(expected.iter()).take_while(|(a, b)| a == b).count();
+                let class = if d.len() > expected.len() && common == expected.len() { "extra-line-delivered" } else if d.len() < expected.len() && common == d.len() { "line-lost-at-end" } else { "line-altered" };
+                run.fail(desc, class, format!("delivered {} items, expected {}; first difference at item {}: {:?} vs {:?}", d.len(), expected.len(), common, d.get(common).map(|l| hex(l)), expected.get(common).map(|l| hex(l))));
+            }
+        }
+    }
+}
+
 /// the real `FollowFileExecutor` (what `sqlgrep --follow [--head]` runs) over a growing file: the file holds `initial`
 /// at start-up, the retry hook appends one chunk per call and then ends the run; stdout is captured
 fn exec_follow(query: &str, head: bool, initial: &[u8], chunks: &[Vec<u8>]) -> (String, Vec<String>) {
@@ -384,6 +410,23 @@ pub fn run(p: &Params) -> Run {
         let mode = *rng.pick(&modes);
         let s = make_schedule(&mut rng, head, cap, initial, &appended, mode);
         check_schedule(&mut run, &s, mode.name());
+    }
+
+    // content with bytes that are not valid UTF-8 (lone lead bytes, stray continuation bytes, 0xFF) between ordinary lines
+    let bad_atoms: &[&[u8]] = &[b"\xff", b"\xc3", b"\x80", b"\xe2\x82", b"\xf0\x9f", b"a\xffb", b"\xc3\n", b"\xff\n"];
+    for _ in 0..p.n(600, 10_000) {
+        let head = rng.chance(1, 2);
+        let cap = *rng.pick(&CAPS);
+        let gen_bad = |rng: &mut Rng, n: usize| -> Vec<u8> {
+            let mut out = Vec::new();
+            for _ in 0..rng.below(n + 1) { if rng.chance(1, 3) { out.extend_from_slice(*rng.pick(bad_atoms)); } else { out.extend_from_slice(rng.pick(&ATOMS).as_bytes()); } }
+            out
+        };
+        let initial = if rng.chance(1, 2) { Vec::new() } else { gen_bad(&mut rng, 6) };
+        let appended = gen_bad(&mut rng, 14);
+        let mode = *rng.pick(&modes);
+        let s = make_schedule(&mut rng, head, cap, initial, &appended, mode);
+        check_schedule_lossy(&mut run, &s, mode.name());
     }
 
     // lines longer than the reader's buffer, also for the large capacities
